@@ -578,8 +578,8 @@ class FunTrans(object):
             key = node.args[0].value
             if key not in self.kwparams:
                 fail(node, "keyword argument %r is not in the spec" % (key,))
-            self.record_kwdefault(key, node.args[1], env)
-            return [], "kw_" + key, self.kwparams[key]
+            bd = self.record_kwdefault(key, node.args[1], env)
+            return bd, "kw_" + key, self.kwparams[key]
         if isinstance(f, ast.Name) and f.id not in env:
             prim = getattr(self, "p_" + f.id, None)
             if prim is not None and f.id in PRIMITIVES:
@@ -647,6 +647,8 @@ class FunTrans(object):
             if k in kwgiven:
                 ba, x, ta = self.expr(kwgiven[k], env)
                 unify(ta, fn["kwparams"][k], node); b += ba; xs.append(x)
+            elif k in fn["kwnodefault"]:
+                fail(node, "keyword argument %s has a computed default: give it explicitly" % k)
             else:
                 xs.append("(%s__default_%s K)" % (fn["coqname"], k))
         v = self.fresh()
@@ -657,6 +659,20 @@ class FunTrans(object):
         if t == "ratio":
             txt = self.ratio_const(dnode)
         else:
+            try:
+                ast.literal_eval(dnode)
+                literal = True
+            except Exception:
+                literal = False
+            if not literal:
+                # Python evaluates the default expression before the lookup: keep its effects (it may raise), drop its value;
+                # such a keyword has no default definition and must be given explicitly by translated callers
+                b, txt, td = self.expr(dnode, env)
+                unify(td, t, dnode)
+                if key in self.kwdefaults:
+                    fail(dnode, "keyword %s read twice" % key)
+                self.kwdefaults[key] = None
+                return b
             b, txt, td = self.expr(dnode, {})
             if b:
                 fail(dnode, "default of a keyword argument must be a pure literal expression")
@@ -667,6 +683,7 @@ class FunTrans(object):
         if key in self.kwdefaults and self.kwdefaults[key] != txt:
             fail(dnode, "two different defaults for keyword %s" % key)
         self.kwdefaults[key] = txt
+        return []
 
     # ---- primitives
     def args1(self, node, env, n=1):
@@ -966,7 +983,28 @@ class FunTrans(object):
         return self.block(rest, env, ctx, ind)
 
     # ---- if
+    def static_isinstance(self, test, env):
+        """isinstance(e, float|int|list) -> (binds of e, truth value) decided by the spec types, else None"""
+        if isinstance(test, ast.Call) and isinstance(test.func, ast.Name) and test.func.id == "isinstance" \
+                and "isinstance" not in env and len(test.args) == 2 and not test.keywords \
+                and isinstance(test.args[1], ast.Name) and test.args[1].id in ("float", "int", "list"):
+            b, x, t = self.expr(test.args[0], env)
+            t = resolve(t)
+            if isinstance(t, TVar):
+                fail(test, "isinstance on a value of unknown type")
+            kind = "list" if isinstance(t, tuple) and t[0] == "list" else t
+            if kind not in ("float", "int", "list"):
+                fail(test, "isinstance on a %s" % show_type(t))
+            return b, kind == test.args[1].id
+        return None
+
     def s_If(self, s, rest, env, ctx, ind):
+        st = self.static_isinstance(s.test, env)
+        if st is not None:
+            # the operand is evaluated (it may raise), the test itself is decided by the types of the spec
+            b, truth = st
+            live = s.body if truth else s.orelse
+            return self.emit(b, ind) + self.block(list(live) + list(rest), env, ctx, ind)
         bc, c, tc = self.expr(s.test, env)
         if resolve(tc) != "bool":
             fail(s, "condition is not a bool")
@@ -1028,15 +1066,17 @@ class FunTrans(object):
         for n in tnames:
             if n in assigned:
                 fail(s, "the loop variable %s is assigned in the loop body" % n)
-            if n in env and n != "_":
-                fail(s, "the loop variable %s shadows a bound variable" % n)
+        # a loop variable that shadows a bound variable: range(...) is evaluated first (with the old value); after the
+        # loop the variable counts as unbound (Python: last element, or the old value for an empty range)
+        shadowed = [n for n in tnames if n in env and n != "_"]
         is_range = isinstance(s.iter, ast.Call) and isinstance(s.iter.func, ast.Name) and s.iter.func.id == "range"
         for n in ast.walk(s.iter):
             if isinstance(n, ast.Name) and n.id in assigned and not is_range:
                 fail(s, "the iterated list is modified in the loop body")
-        pat, env2 = self.bind_target(s.target, et, env)
-        state = self.loop_state(s.body, env)
-        return self.emit(b, ind) + self.loop(s, "gfor", "gfor_ret", "%s (fun %s %%s =>" % (src, pat), state, env, env2, rest, ctx, ind)
+        env0 = dict((k, v) for k, v in env.items() if k not in shadowed)
+        pat, env2 = self.bind_target(s.target, et, env0)
+        state = self.loop_state(s.body, env0)
+        return self.emit(b, ind) + self.loop(s, "gfor", "gfor_ret", "%s (fun %s %%s =>" % (src, pat), state, env0, env2, rest, ctx, ind)
 
     def s_While(self, s, rest, env, ctx, ind):
         if s.orelse:
@@ -1064,6 +1104,8 @@ class FunTrans(object):
 
         def fall(env2, ind2):
             for n in state:
+                if n not in env2:
+                    fail(s, "the loop-carried variable %s may be unbound at the end of the body" % n)
                 unify(env2[n], env[n], s)       # the type of a loop-carried variable must not change
             return [ind2 + ("GOk (GCont %s)" % tup if has_ret else "GOk %s" % tup)]
         saver = self.rebound
@@ -1147,8 +1189,9 @@ class FunTrans(object):
         kworder = sorted(self.kwparams)
         lines = []
         for k in kworder:
-            lines.append("Definition %s__default_%s {T : Type} (K : ops T) : %s := %s." %
-                         (coqname, k, coq_type(self.kwparams[k]), self.kwdefaults[k]))
+            if self.kwdefaults[k] is not None:
+                lines.append("Definition %s__default_%s {T : Type} (K : ops T) : %s := %s." %
+                             (coqname, k, coq_type(self.kwparams[k]), self.kwdefaults[k]))
         args = " ".join("(%s : %s)" % (mangle(n), coq_type(t)) for n, t in self.params)
         kargs = "".join(" (kw_%s : %s)" % (k, coq_type(self.kwparams[k])) for k in kworder)
         lines.append("Definition %s {T : Type} (K : ops T) %s%s : gres %s :=" % (coqname, args, kargs, paren_type(rt)))
@@ -1166,6 +1209,7 @@ class FunTrans(object):
                 unify(t, t0, d)
             defaults[n] = x
         info = {"coqname": coqname, "params": self.params, "kwparams": self.kwparams, "kworder": kworder,
+                "kwnodefault": [k for k in kworder if self.kwdefaults[k] is None],
                 "defaults": defaults, "rtype": rt,
                 "fntype": ("fn", tuple(t for _, t in self.params) + tuple(self.kwparams[k] for k in kworder), rt)}
         return "\n".join(lines), info
@@ -1382,6 +1426,23 @@ SPEC = {
             {"name": "basis_functions",
              "params": {"degree": "int", "knot_vector": "list[float]", "spans": "list[int]", "knots": "list[float]"},
              "returns": "list[list[float]]"},
+            {"name": "basis_function_ders",
+             "params": {"degree": "int", "knot_vector": "list[float]", "span": "int", "knot": "float", "order": "int"},
+             "returns": "list[list[float]]"},
+            {"name": "basis_function_ders_one",
+             "params": {"degree": "int", "knot_vector": "list[float]", "span": "int", "knot": "float", "order": "int"},
+             "returns": "list[float]"},
+            {"name": "knot_insertion_alpha",
+             "params": {"u": "float", "knotvector": "list[float]", "span": "int", "idx": "int", "leg": "int"},
+             "returns": "float"},
+            # control points are lists of floats (a point, weighted or not); alias_ok: the only in-place updates are
+            # temp[i][:] = ..., and every element of temp is a deepcopy, so no updated object has a second name
+            {"name": "knot_insertion",
+             "params": {"degree": "int", "knotvector": "list[float]", "ctrlpts": "list[list[float]]", "u": "float"},
+             "kwargs": {"num": "int", "s": "int", "span": "int"}, "returns": "list[list[float]]", "alias_ok": True},
+            {"name": "knot_insertion_kv",
+             "params": {"knotvector": "list[float]", "u": "float", "span": "int", "r": "int"},
+             "returns": "list[float]"},
         ]},
     },
 }
